@@ -103,11 +103,17 @@ def translate_lag(labels, rng, scn):
     labels = list(labels)
     nprof, nsp = len(scn['aprofiles']), len(scn['sprofiles'])
     i = 0
+    gone = set()
     while i < len(labels):
         ev, args = labels[i]
+        if ev == 'Schedule' and args[0] in gone:
+            # ZooKeeper gives a re-scheduled application a NEW instance id; the model's
+            # finite App set would take it for the old instance: the history ends here
+            break
         if ev == 'Schedule':
             hist.append(('CreateApp', [args[0], rng.randrange(nprof) + 1]))
         elif ev == 'Unschedule':
+            gone.add(args[0])
             hist.append(('DeleteApp', [args[0]]))
         elif ev in ('NodeDown', 'DeleteServer'):
             hist.append((ev, [args[0]]))
@@ -151,6 +157,42 @@ def translate_lag(labels, rng, scn):
         i += 1
     # settle: everything is delivered, one more cycle, then a fail-over
     return hist + [('Deliver', []), ('Cycle', []), ('Restart', []), ('Cycle', [])]
+
+
+def lag_conformance(ctx, behaviours, rng):
+    """MasterLag.tla behaviours replayed on the real Master in the model's own
+    constants (scenario 'lag'); every recorded step must be a step of the model
+    (MasterLagTrace.tla).  Conformance class: ext.lag.* is DRIFT, not a violation."""
+    scn = mc.SCENARIOS['lag']
+    hists = [translate_lag(b, rng, scn) for b in behaviours]
+    for _ in range(len(behaviours) // 2):
+        # (partitions are not part of MasterLag.tla)
+        hists.append([e for e in gen_stale(scn, rng) if e[0] != 'SetPartition'])
+    traces = mc.record('lag', hists)
+    verdicts, stats = mc.validate_lag(traces)
+    ctx.cmds.append(stats['cmd'])
+    total = sum(len(t['lines']) - 1 for t in traces)
+    if len(verdicts) != total:
+        raise tlc.MachineryError('lag trace spec judged %d of %d lines' % (len(verdicts), total))
+    drift = [v for v in verdicts if v['fail']]
+    lost = sum(1 for v in verdicts if 'lost' in v['ex'])
+    lagging = sum(1 for v in verdicts if 'lag' in v['ex'])
+    cuts = sum(1 for v in verdicts if 'cut' in v['ex'])
+    by = {t['tid']: t for t in traces}
+    for v in drift[:3]:
+        t = by[v['tid']]
+        ctx.log('ext.lag drift: %s at step %d (%s%s) of %s' % (
+            sorted(v['fail']), v['i'], t['lines'][v['i']]['ev'], t['lines'][v['i']]['args'],
+            [list(x) for x in t['history']]))
+    ctx.drift += len(drift)
+    ctx.extensions = getattr(ctx, 'extensions', {})
+    ctx.extensions['watch_latency'] = dict(
+        traces=len(traces), lines=total, steps_not_of_model=len(drift), lines_after_mismatch=lost,
+        steps_with_undelivered_notifications=lagging, steps_cut_by_crash=cuts)
+    ctx.log('lag conformance: %d traces, %d lines, %d not steps of MasterLag.tla, %d taken with '
+            'undelivered notifications, %d cut by a crash' % (len(traces), total, len(drift), lagging, cuts))
+    if total and lagging == 0:
+        raise tlc.MachineryError('lag conformance exercised no step under watch latency')
 
 
 def with_cuts(hist, rng, ncuts):
@@ -354,6 +396,7 @@ def run(ctx, prop):
         ctx.cmds.append(lcmd)
         for b in lb:
             hist.append(('tlc-lag', translate_lag(b, rng, scn)))
+        lag_conformance(ctx, lb, rng)
     if prop == 'C10' and not ctx.quick:
         for src, h in list(hist)[:150]:
             for hc in all_cuts(h):
@@ -404,15 +447,16 @@ def judge(ctx, prop, traces, verdicts):
         samples.append(dict(trace=traces[0]['tid'], history=[str(x) for x in traces[0]['history']]))
     if ctx.drift:
         print('DRIFT: %d recorded steps of behaviour modelled beyond the listed properties '
-              '(PendingStart.tla) are not steps of the model (spec needs updating; not a violation)'
-              % ctx.drift)
+              '(PendingStart.tla, MasterLag.tla) are not steps of the model (spec needs updating; '
+              'not a violation)' % ctx.drift)
     if ctx.skipped:
         print('NOTE: %d steps raised an exception outside start-up (counted as skipped)' % ctx.skipped)
     return core.conclude(
         ctx, level='model_checking', violations=violations, evaluations=evaluations,
         distinct_nontrivial=len(nontrivial), rule=RULE[prop], samples=samples,
         traces_validated=len(traces), assumptions=ASSUMPTIONS,
-        extra=dict(trace_sources=dict(collections.Counter(t.get('src') for t in traces))))
+        extra=dict(trace_sources=dict(collections.Counter(t.get('src') for t in traces)),
+                   extensions=getattr(ctx, 'extensions', {})))
 
 
 def replay(ctx, prop, path):
